@@ -109,9 +109,16 @@ def c10(tier, seed, replay_path=None):
                 if i % 40 == 0:
                     fo.write(line)
         aggs.append(fc.replay(binary, small, seed, op="access", extra_env={"VERIF_WS": "1"}, nproc=8))
+    # a create and a revoke whose COMMIT is held up beyond the busy timeout by a reader on another connection (one process, ~12 s)
+    one = os.path.join(d, "C10commit.jsonl")
+    with open(os.path.join(d, "C10a.jsonl")) as fi, open(one, "w") as fo:
+        fo.write(fi.readline())
+    aggs.append(fc.replay(binary, one, seed, op="access", extra_env={"VERIF_COMMITFAULT": "1"}, nproc=1))
     from checks_chain import merge
     agg = merge(aggs)
     st = agg["stats"]
+    if st.get("commitfault-create", 0) + st.get("commitfault-revoke", 0) == 0:
+        raise c.Infra("the commit failure was not injected: %s" % {k: v for k, v in st.items() if k.startswith("commitfault")})
     if st.get("op:create", 0) == 0 or st.get("op:revoke", 0) == 0 or st.get("op:restart", 0) == 0 or st.get("op:rotate", 0) == 0:
         raise c.Infra("vacuous run: %s" % dict(st))
     return _with_startup(simple_verdict("C10", agg, runs, {"generation": gen, "exhaustive": tier != "quick",
